@@ -12,7 +12,7 @@ import shutil
 import struct
 
 from vf import build, run, report, zoo, corrupt, fsckpair
-from vf.pyext4 import image as I, check as C, meta as M, crc
+from vf.pyext4 import image as I, check as C, meta as M, crc, jparse
 
 BUDGET = {"quick": dict(a=40, b=1500, c=3000), "thorough": dict(a=400, b=60000, c=40000)}
 UUID2 = "11112222-3333-4444-5555-666677778888"
@@ -212,7 +212,7 @@ def _producer(arg):
         return run.run([b.tool("e2fsck")] + args + [img], env=env, timeout=300)
 
     pipes = ["plain", "debugfs", "tune-uuid", "tune-csum-cycle", "tune-seed", "resize", "repair",
-             "rehash", "journal", "isize"]
+             "rehash", "journal", "isize", "jwrite"]
     pipe = pipes[(idx + seed + idx // len(pipes)) % len(pipes)]     # every pipeline in every run
     if pipe == "isize":
         # inodes whose extended part is shorter than usual, down to the minimum of 4 bytes that
@@ -233,6 +233,76 @@ def _producer(arg):
         open(sf, "w").write("\n".join(script) + "\n")
         run.run([b.tool("debugfs"), "-w", "-f", sf, img], env=env, timeout=300)
         steps.append("debugfs(sif extra_isize 4..32 on 8 files)")
+    if pipe == "jwrite":
+        # debugfs' journal writer: transactions with checksums v2 / v3, one block that has to be
+        # escaped (starts with the jbd2 magic), a revoke; every checksum in the log is recomputed by
+        # the independent walker, then the replay has to deliver the written bytes
+        targets = []
+        try:
+            with I.Image(img) as im:
+                if im.sb.has_compat("has_journal") and im.sb.s_journal_inum:
+                    special = {im.sb.s_usr_quota_inum, im.sb.s_grp_quota_inum, im.sb.s_prj_quota_inum,
+                               im.sb.s_orphan_file_inum if im.sb.has_compat("orphan_file") else 0}
+                    for ino in range(im.sb.first_ino, im.sb.s_inodes_count + 1):
+                        if ino in special or not im.inode_allocated(ino):
+                            continue
+                        io = im.inode(ino)
+                        if io.is_reg() and not (io.flags & I.FL_INLINE_DATA):
+                            blks = [pb + k for _l, pb, n, _u in im.block_map(io)[0] for k in range(n)]
+                            if len(blks) >= 4:
+                                targets = blks[:4]
+                                break
+                bs = im.bs
+        except I.FormatError:
+            targets = []
+        if targets:
+            ver = rng.choice(["2", "3", "3"])
+            magic = bytes.fromhex("c03b3998")
+            content = {targets[0]: magic + bytes((i * 7 + 1) % 251 for i in range(bs - 4)),
+                       targets[1]: bytes((i * 3 + 2) % 253 + 1 for i in range(bs)),
+                       targets[2]: bytes((i * 5 + 3) % 241 + 1 for i in range(bs)),
+                       targets[3]: magic * (bs // 4)}
+            h1, h2, h3 = (os.path.join(workdir, "j%d_%d" % (idx, k)) for k in range(3))
+            open(h1, "wb").write(content[targets[0]] + content[targets[1]])
+            open(h2, "wb").write(content[targets[2]])
+            open(h3, "wb").write(content[targets[3]])
+            script = ["jo -c -v " + ver,
+                      "jw -b %d,%d %s" % (targets[0], targets[1], h1),
+                      # (data and revokes in separate transactions: the writer under-reserves log space
+                      # for a transaction that has both, and the next one then overwrites its commit block)
+                      "jw -r %d" % targets[1],
+                      "jw -b %d %s" % (targets[2], h2),
+                      "jw -b %d %s" % (targets[3], h3),
+                      "jc"]
+            sf = img + ".cmd"
+            open(sf, "w").write("\n".join(script) + "\n")
+            r = run.run([b.tool("debugfs"), "-w", "-f", sf, img], env=env, timeout=300)
+            steps.append("debugfs(jo -c -v %s; 4 x jw; jc) rc=%s" % (ver, r.rc))
+            jprob = []
+            try:
+                with I.Image(img) as im:
+                    jprob, jst, txns = jparse.walk(im)
+                out["journal_stats"] = jst
+                if jst["transactions"] < 4 or jst["escaped_tags"] < 2 or jst["commit_blocks"] < 4:
+                    out["harness"] = "journal writer left %s" % jst
+            except (jparse.JournalError, I.FormatError, struct.error) as e:
+                jprob = ["journal unparsable: %s" % e]
+            r = fsck(["-fy", "-E", "journal_only"])
+            steps.append("e2fsck -fy -E journal_only (replay) rc=%s" % r.rc)
+            with open(img, "rb") as f:
+                for t in (targets[0], targets[2], targets[3]):
+                    f.seek(t * bs)
+                    if f.read(bs) != content[t]:
+                        jprob.append("after replay fs block %d does not hold the journalled bytes" % t)
+                f.seek(targets[1] * bs)
+                if f.read(bs) == content[targets[1]]:
+                    jprob.append("after replay fs block %d holds bytes of a transaction that a later one revoked"
+                                 % targets[1])
+            out["journal_problems"] = jprob
+            for h in (h1, h2, h3):
+                os.unlink(h)
+        else:
+            steps.append("jwrite: no journal / no 4-block file, nothing written")
     if pipe == "debugfs":
         host = os.path.join(workdir, "h%d" % idx)
         with open(host, "wb") as f:
@@ -381,6 +451,16 @@ def main(tier, seed, replay=None, scale=1.0):
                 continue
             pipe = r["pipeline"][-1].split("(")[0].split(" rc=")[0]
             rep.count("a_pipeline " + pipe)
+            if r.get("journal_stats"):
+                for k in ("descriptor_blocks", "tags", "escaped_tags", "commit_blocks", "revoke_blocks"):
+                    rep.count("a_journal_" + k + "_recomputed", r["journal_stats"][k])
+                rep.add("a_journal_csum_versions", r["journal_stats"]["csum"])
+            if r.get("journal_problems"):
+                first = r["journal_problems"][0]
+                kind = "tag checksum" if first.startswith("tag checksum") else first.split(" (")[0].split(" of fs")[0][:60]
+                rep.violation("C14a journal written by debugfs: %s" % kind,
+                              "pipeline %s: %s" % (r["pipeline"], r["journal_problems"][:4]),
+                              replay={"part": "a", "idx": r["idx"], "seed": seed})
             if r.get("not_clean"):
                 rep.count("a_result_not_e2fsck_clean (not judged)")
                 rep.case(None)
@@ -399,5 +479,6 @@ def main(tier, seed, replay=None, scale=1.0):
         rep.count("a_checksums_recomputed", sum(tot.values()))
     rep.assumptions = ["free inodes and bitmaps of UNINIT groups carry no defined checksum and are excluded",
                        "unused htree entries between count and limit are not covered by the dx checksum",
-                       "journal block checksums are judged by replay outcome in C03"]
+                       "journal checksums: those written by debugfs' journal writer are recomputed here "
+                       "(vf/pyext4/jparse.py); acceptance of damaged journal blocks is judged by replay outcome in C03"]
     return rep.finish()
